@@ -485,14 +485,14 @@ func checkSortCase(c sortCase, rec *Rec) error {
 func init() {
 	RegisterRapid("C17_history",
 		"rapid: one receiver (with 0..16 spare capacity) under a script of Add (unsorted, repeated, already-present arguments) / Remove / Union; values dense in -8..12, 5% any int; model map[int]bool; receiver strictly increasing and equal to the model after every op, arguments unchanged. Non-trivial: an Add with a repeated argument and an already-present argument, or a Union with overlap into spare capacity.",
-		Budget{Checks: 6000, Shards: 1}, Budget{Checks: 40000, Shards: 8}, genSiCase, checkSiCase)
+		Budget{Checks: 6000, Shards: 1}, Budget{Checks: 400000, Shards: 16}, genSiCase, checkSiCase)
 	RegisterRapid("C17_functions",
 		"rapid: sets a, b (b sometimes a subset of a), x, n, raw list; Union/Intersection/SetMinus/XOR/IntersectionSize/ContainsSorted/ContainsSingle/Complement/NewSortedInts against the model; inputs unchanged; results fresh (overwritten up to capacity, inputs re-compared). Non-trivial: a and b overlap properly.",
-		Budget{Checks: 6000, Shards: 1}, Budget{Checks: 40000, Shards: 4}, genSfCase, checkSfCase)
+		Budget{Checks: 6000, Shards: 1}, Budget{Checks: 400000, Shards: 8}, genSfCase, checkSfCase)
 	RegisterRapid("C17_range",
 		"rapid: (start,end,step) with |values| <= 20 around 0 or around a far base, step in -7..7; oracle: {start+i*step, i>=0} from start inclusive to end exclusive, the three documented infinite-set panics being the only allowed panics. Non-trivial: negative step with a non-empty result.",
-		Budget{Checks: 4000, Shards: 1}, Budget{Checks: 30000, Shards: 2}, genRangeCase, checkRangeCase)
+		Budget{Checks: 4000, Shards: 1}, Budget{Checks: 300000, Shards: 4}, genRangeCase, checkRangeCase)
 	RegisterRapid("C17_sort",
 		"rapid: slices of length 0..200 (quick) / 0..3000 (thorough) in eight shapes (random, few values, sorted, reversed, organ pipe, all equal, sawtooth, median-of-three killer); ints.Sort must equal sort.Ints. Non-trivial: length > 12 (beyond the insertion-sort cutoff).",
-		Budget{Checks: 1500, Shards: 1}, Budget{Checks: 6000, Shards: 4}, genSortCase, checkSortCase)
+		Budget{Checks: 1500, Shards: 1}, Budget{Checks: 30000, Shards: 8}, genSortCase, checkSortCase)
 }
